@@ -488,6 +488,7 @@ type stubHandler struct {
 	name      string
 	accept    bool
 	panics    bool
+	genFails  int // 0 no, 1 typed error, 2 plain error, 3 no keys and no error
 	authCalls int
 	genCalls  int
 	log       *[]string
@@ -514,6 +515,14 @@ func (s *stubHandler) Authenticate(*csr.ReqParam) error {
 func (s *stubHandler) Generate(*csr.ReqParam) ([]csr.AgentKey, error) {
 	s.genCalls++
 	*s.log = append(*s.log, "generate:"+s.name)
+	switch s.genFails {
+	case 1:
+		return nil, gensign.NewErrorWithMsg(gensign.HandlerGenCSRErr, s.name, "scripted generation failure")
+	case 2:
+		return nil, errors.New("scripted generation failure (plain error)")
+	case 3:
+		return nil, nil
+	}
 	return []csr.AgentKey{&stubKey{owner: s.name, log: s.log}}, nil
 }
 
@@ -593,6 +602,61 @@ func handlerLists(r *ev.Run) {
 				r.Count("handler lists with a panicking handler judged", 1)
 				r.Nontrivial(fmt.Sprintf("panic-handler:%d:%d", n, pos))
 			})
+		}
+	}
+	// the first handler that authenticates fails to generate: the run fails; no later
+	// handler's request may be generated, signed or delivered in its place
+	for n := 1; n <= 4; n++ {
+		for pos := 0; pos < n; pos++ {
+			for pat := 0; pat < 1<<uint(n-pos-1); pat++ {
+				for mode := 1; mode <= 3; mode++ {
+					c := r.Case("handlers-genfail", idx)
+					idx++
+					if c == nil {
+						continue
+					}
+					r.Eval(1)
+					r.Guard(c, "handler list whose first accepting handler fails to generate", nil, func() {
+						var log []string
+						var hs []gensign.Handler
+						var stubs []*stubHandler
+						for i := 0; i < n; i++ {
+							s := &stubHandler{name: fmt.Sprintf("stub%d", i), log: &log, authCalls: (mode + i) % 3}
+							switch {
+							case i == pos:
+								s.accept, s.genFails = true, mode
+							case i > pos:
+								s.accept = pat&(1<<uint(i-pos-1)) != 0
+							}
+							stubs = append(stubs, s)
+							hs = append(hs, s)
+						}
+						signer := &gsrig.Signer{}
+						err, escaped := gsrig.Run(gsrig.Param(gsrig.ParamSpec{LogName: "alice", ReqUser: "u", ReqHost: "h", ClientIP: "1.2.3.4", TransID: "0123456789", Policy: "NONS"}), hs, signer)
+						rec := map[string]any{"handlers": n, "first_accepting_position": pos, "generate_failure_mode": mode, "later_accept_pattern": fmt.Sprintf("%b", pat), "log": log}
+						if escaped != "" {
+							r.Violation(c, gsrig.EscapeSig(escaped)+":handler-list", escaped, rec)
+							return
+						}
+						for i, s := range stubs {
+							if i != pos && s.genCalls > 0 {
+								r.Violation(c, "request-generated-by-a-handler-other-than-the-first-accepting-one", fmt.Sprintf("first accepting handler stub%d failed to generate; %s generated; err=%v log=%v", pos, s.name, err, log), rec)
+								return
+							}
+						}
+						if signer.NumCalls() > 0 {
+							r.Violation(c, "signing-although-first-accepting-handler-generated-nothing", fmt.Sprintf("signer calls=%d err=%v log=%v", signer.NumCalls(), err, log), rec)
+							return
+						}
+						if err == nil {
+							r.Violation(c, "run-succeeds-although-first-accepting-handler-generated-nothing", fmt.Sprintf("log=%v", log), rec)
+							return
+						}
+						r.Count("handler lists with a failing Generate judged", 1)
+						r.Nontrivial(fmt.Sprintf("genfail-handler:%d:%d:%b:%d", n, pos, pat, mode))
+					})
+				}
+			}
 		}
 	}
 	r.Extra("handler_list_patterns", idx)
